@@ -201,7 +201,7 @@ func c04Fanout(c *Check, P string, r *GCRoles) {
 	F := r.Fan
 	// the deliver calls in F's literals
 	var dcalls []ssa.CallInstruction
-	for _, f := range WithAnon(F) {
+	for _, f := range WithStarted(F) {
 		for _, cl := range CallsIn(f) {
 			if CalleeFn(cl.Common()) == r.Deliver {
 				dcalls = append(dcalls, cl)
@@ -236,6 +236,12 @@ func c04Fanout(c *Check, P string, r *GCRoles) {
 				if g, ok := ref.(*ssa.Go); ok {
 					goSite = g
 				}
+			}
+		}
+		if goSite == nil {
+			// a private named method started with `go` at its only call site
+			if g, ok := OnlySite(lit).(*ssa.Go); ok {
+				goSite = g
 			}
 		}
 		okOnce := goSite != nil && InLoop(goSite) && !InLoop(dc) && len(dcalls) == 1
@@ -305,7 +311,7 @@ func c04LookupCopy(c *Check, id string, r *GCRoles) {
 					// the live list may be handed out only if every iteration over it happens under the subscribers lock;
 					// the fan-out iterates in a goroutine after Publish released it, so a copy is required
 					underLock := isList(v)
-					for _, f := range WithAnon(F) {
+					for _, f := range WithStarted(F) {
 						AllInstrs(f, func(in ssa.Instruction) {
 							if ia, ok := in.(*ssa.IndexAddr); ok && AllOrigins(ia.X, ResultOfAny(lookups, 0)) {
 								if _, held := r.LA.Held(in)[r.idSubs]; !held {
